@@ -162,6 +162,7 @@ Fixpoint bl_loop (fuel : nat) (st : bst) (bs : list Z) : M jhdr :=
       else if m =? 217 then
         _ <- bl_out_alloc st ;;
         ret (b_w st, b_h st, zlen (b_comps st), 8)
+      else if is_sof m then err   (* F47: frame header of a process this decoder does not implement *)
       else if has_length m then x <- read_segment r ;; bl_loop k st (snd x)
       else bl_loop k st r
     | _ => err
